@@ -176,15 +176,15 @@ type mintObs struct {
 // c02Monitor checks one twin against the model after every block.
 type c02Monitor struct {
 	kernel.NopMonitor
-	model      *models.MintModel
-	params     mintertypes.Params
-	supply0    sdk.Int
-	prev       sdk.Int
-	obs        []mintObs
-	evals      int64
-	twin       int
-	lastSeq    uint32
-	sumEvents  sdk.Int
+	model     *models.MintModel
+	params    mintertypes.Params
+	supply0   sdk.Int
+	prev      sdk.Int
+	obs       []mintObs
+	evals     int64
+	twin      int
+	lastSeq   uint32
+	sumEvents sdk.Int
 }
 
 func (m *c02Monitor) Init(r *kernel.Run) {
